@@ -8,14 +8,15 @@ package mimetype
 
 // Ghost state of the detector tree. A *registered node* is a MIME object with a
 // detector (clones returned to callers have none). depth is a ghost field;
-// treeDepth() bounds it, which gives the tree walk an input-independent measure.
+// treeDepth bounds it, which gives the tree walk an input-independent measure.
 
 //@ ghostfield MIME.depth int
-//@ ghostfun treeDepth() int
+//@ ghostvar treeDepth int
 
 //@ spec isNode(r) = MIME(r).detector != nil
-//@ spec nodeOK(r) = 0 <= MIME(r).depth && MIME(r).depth <= treeDepth() && (MIME(r).parent != nil ==> allocated(MIME(r).parent) && isNode(MIME(r).parent) && MIME(r).depth == MIME(r).parent.depth + 1) && (MIME(r).parent == nil ==> MIME(r).depth == 0) && (forall i :: 0 <= i && i < len(MIME(r).children) ==> allocated(MIME(r).children[i]) && isNode(MIME(r).children[i]) && MIME(r).children[i].parent == MIME(r))
-//@ spec TI() = (forall r :: 0 < r && r <= HEAPTOP() && isNode(r) ==> nodeOK(r)) && allocated(root) && isNode(root) && allocated(errMIME) && isNode(errMIME)
+//@ spec nodeOK(r) = 0 <= MIME(r).depth && MIME(r).depth <= treeDepth && (MIME(r).parent != nil ==> existing(MIME(r).parent) && isNode(MIME(r).parent) && MIME(r).depth == MIME(r).parent.depth + 1) && (MIME(r).parent == nil ==> MIME(r).depth == 0) && (forall i :: 0 <= i && i < len(MIME(r).children) ==> existing(MIME(r).children[i]) && isNode(MIME(r).children[i]) && MIME(r).children[i].parent == MIME(r))
+// TI: every registered node that exists now is well formed
+//@ spec TI() = (forall r :: existing(MIME(r)) && isNode(r) ==> nodeOK(r)) && existing(root) && isNode(root) && existing(errMIME) && isNode(errMIME)
 
 //@ func mimetype.(*MIME).String
 //@   requires m != nil
@@ -38,7 +39,8 @@ package mimetype
 //@   ensures result != nil && fresh(result)
 
 //@ func mimetype.(*MIME).clone
-//@   requires m != nil
+//@   requires m != nil && TI()
+//@   ensures TI()
 //@   ensures result != nil && fresh(result)
 //@   ensures result.parent == nil && result.detector == nil && len(result.children) == 0
 //@   ensures [C02_clone_fields] result.extension == m.extension && result.aliases == m.aliases
@@ -48,34 +50,67 @@ package mimetype
 //@   requires TI() && allocated(m) && isNode(m)
 //@   ensures result != nil && fresh(result)
 //@   ensures TI()
+//@   ensures [C03_clone] mirrors(result, m)
+//@   ensures [C02_clone_mime] len(ps) == 0 ==> result.mime == m.mime
+//@   ensures [C03_parent] m.parent == nil ==> result.parent == nil
+//@   ensures [C03_parent2] m.parent != nil ==> result.parent != nil && fresh(result.parent) && mirrors(result.parent, m.parent) && result.parent.mime == m.parent.mime
+//@   loop 1 invariant [C03_ret] mirrors(ret, m) && (len(ps) == 0 ==> ret.mime == m.mime)
+//@   loop 1 invariant [C03_chain0] ret == lastChild ==> p == m.parent && ret.parent == nil
+//@   loop 1 invariant [C03_chain1] ret != lastChild ==> m.parent != nil && ret.parent != nil && fresh(ret.parent) && ret.parent != ret
+//@   loop 1 invariant [C03_chain2] ret != lastChild ==> mirrors(ret.parent, m.parent)
+//@   loop 1 invariant [C03_chain3] ret != lastChild ==> ret.parent.mime == m.parent.mime
+//@   loop 1 invariant [C03_last] lastChild.parent == nil && lastChild.detector == nil
 //@   loop 1 invariant p == nil || allocated(p) && isNode(p)
 //@   loop 1 invariant lastChild != nil && fresh(lastChild) && ret != nil && fresh(ret)
 //@   loop 1 invariant [TI] TI()
 //@   loop 1 decreases ite(p == nil, 0, p.depth + 1)
 
+// leaf(n, raw, limit): the node reached from n by repeatedly descending into the first child
+// whose detector accepts (raw, limit), stopping when none does. Transcribed from C03; defined
+// by its two unfolding equations (trusted spec), stated over the heap at entry.
+//@ ghostfun leaf(int, bytes, int) int
+//@ spec accepts(c, raw, limit) = det(MIME(c).detector, raw, limit)
+//@ spec mirrors(x, n) = x != nil && x.extension == MIME(n).extension && x.aliases == MIME(n).aliases && x.detector == nil && len(x.children) == 0
+
 //@ func mimetype.(*MIME).match
 //@   requires TI() && allocated(m) && isNode(m)
+//@   assume [leaf_step] forall n :: forall i :: 0 < n && n <= HEAPTOP() && isNode(n) && 0 <= i && i < len(MIME(n).children) && accepts(MIME(n).children[i], in, readLimit) && (forall j :: 0 <= j && j < i ==> !accepts(MIME(n).children[j], in, readLimit)) ==> leaf(n, in, readLimit) == leaf(MIME(n).children[i], in, readLimit)
+//@   assume [leaf_stop] forall n :: 0 < n && n <= HEAPTOP() && isNode(n) && (forall j :: 0 <= j && j < len(MIME(n).children) ==> !accepts(MIME(n).children[j], in, readLimit)) ==> leaf(n, in, readLimit) == n
 //@   ensures result != nil && fresh(result)
 //@   ensures TI()
-//@   decreases treeDepth() - m.depth
+//@   ensures [C03_leaf] mirrors(result, leaf(m, in, readLimit))
+//@   ensures [C03_leaf_node] allocated(MIME(leaf(m, in, readLimit))) && isNode(leaf(m, in, readLimit))
+//@   ensures [C03_parent] MIME(leaf(m, in, readLimit)).parent == nil ==> result.parent == nil
+//@   ensures [C03_parent2] MIME(leaf(m, in, readLimit)).parent != nil ==> result.parent != nil && fresh(result.parent) && mirrors(result.parent, MIME(leaf(m, in, readLimit)).parent) && result.parent.mime == MIME(leaf(m, in, readLimit)).parent.mime
+//@   decreases treeDepth - m.depth
+//@   loop 1 invariant [C03_first] forall j :: 0 <= j && j <= rangeindex ==> !accepts(m.children[j], in, readLimit)
 
 //@ func mimetype.(*MIME).flatten
 //@   requires TI() && allocated(m) && isNode(m)
 //@   ensures forall i :: 0 <= i && i < len(result) ==> allocated(result[i]) && isNode(result[i])
-//@   decreases treeDepth() - m.depth
+//@   decreases treeDepth - m.depth
 //@   loop 1 invariant forall i :: 0 <= i && i < len(out) ==> allocated(out[i]) && isNode(out[i])
 
 //@ func mimetype.(*MIME).lookup
 //@   requires TI() && allocated(m) && isNode(m)
 //@   ensures result == nil || allocated(result) && isNode(result)
-//@   decreases treeDepth() - m.depth
+//@   decreases treeDepth - m.depth
 
 //@ func mimetype.(*MIME).Extend
 //@   requires TI() && allocated(m) && isNode(m) && detector != nil
-//@   assigns m.children
+//@   assigns m.children, ghost(treeDepth)
+//@   ghost return: c.depth = m.depth + 1
+//@   ghost return: treeDepth = treeDepth + 1
+//@   ensures [C14_prepend] len(m.children) == old(len(m.children)) + 1 && (forall i :: 0 <= i && i < old(len(m.children)) ==> m.children[i+1] == old(m.children)[i])
+//@   ensures [C14_child] fresh(m.children[0]) && m.children[0].detector == detector && m.children[0].mime == mime && m.children[0].extension == extension && m.children[0].aliases == aliases && m.children[0].parent == m && len(m.children[0].children) == 0
+//@   ensures [C14_TI] TI()
 
 //@ func mimetype.Extend
 //@   requires TI() && detector != nil
+//@   assigns root.children, ghost(treeDepth)
+//@   ensures [C14_prepend] len(root.children) == old(len(root.children)) + 1 && (forall i :: 0 <= i && i < old(len(root.children)) ==> root.children[i+1] == old(root.children)[i])
+//@   ensures [C14_child] fresh(root.children[0]) && root.children[0].detector == detector && root.children[0].mime == mime && root.children[0].extension == extension && root.children[0].aliases == aliases && root.children[0].parent == root
+//@   ensures [C14_TI] TI()
 
 //@ func mimetype.Lookup
 //@   requires TI()
